@@ -67,7 +67,10 @@ int main(int argc, char **argv) {
     if (r.below(8) == 0) { const int pads[] = {1, 4, 12}; g.pad_stride = pads[r.below(3)]; g.family += "padded-stride+"; }
     vf::EncOpts o = vf::GenOpts(r, g);
     if (!c09) o.track = r.below(2) != 0;
-    if (!o.expert && r.below(4) == 0) o.history = 1 + static_cast<int>(r.below(2));  // the Encoder object has encoded something else before  // tracking of encoded properties must not influence the stream (C09 needs it on)
+    if (!o.expert && r.below(4) == 0) o.history = 1 + static_cast<int>(r.below(2));  // the Encoder object has encoded something else before
+    // The history *mesh* is encoded with this case's options: for a point-cloud case they were not vetted for mesh
+    // coding (AvoidHugeEntropyTables looks at the case's own geometry), so above 18 position bits the history is a cloud.
+    if (o.history == 1 && !g.is_mesh && vf::EffectiveQBits(g, o, g.pos_att) > 18) o.history = 2;
     vf::AvoidHugeEntropyTables(g, &o);
     if (gp.narrow_int32) {
       // ASan/UBSan slice: the tex-coord predictor squares 2*q-bit quantities in int64 and overflows (UB on both
